@@ -6,6 +6,7 @@ package main
 // Compiled only with the build tag verif; nothing here is reachable from the server.
 
 import (
+	"encoding/json"
 	"strings"
 )
 
@@ -262,4 +263,38 @@ func verifRestrictedTagsOK(i, j int) bool {
 		}
 	}
 	return got == want
+}
+
+// verifCtrlParamsKept: the parameters of a {ctrl} reply reach a gRPC client with the keys and values the JSON rendering
+// of the same reply has, for each of the three map shapes the server builds such parameters with.
+func verifCtrlParamsKept(shape, v int) bool {
+	var p any
+	switch shape {
+	case 0:
+		p = map[string]any{"seq": v, "what": "data"}
+	case 1:
+		p = map[string]int{"del": v}
+	default:
+		p = map[string]string{"what": verifNthString(v, "ab"), "topic": "usr" + verifNthString(v, "ab")}
+	}
+	ctrl := &MsgServerCtrl{Id: "1", Code: 200, Params: p}
+	out := pbServCtrlSerialize(ctrl)
+	if out == nil || out.Ctrl == nil {
+		return false
+	}
+	// What a JSON client sees.
+	raw, err := json.Marshal(ctrl.Params)
+	if err != nil {
+		return false
+	}
+	var want map[string]json.RawMessage
+	if json.Unmarshal(raw, &want) != nil || len(want) != len(out.Ctrl.Params) {
+		return false
+	}
+	for k, w := range want {
+		if string(out.Ctrl.Params[k]) != string(w) {
+			return false
+		}
+	}
+	return true
 }
